@@ -19,6 +19,7 @@ macro_rules! bsv {
 
 const P7: i32 = 7;
 const P8: i32 = 8;
+const P9: i32 = 9;
 
 static mut REGS: Option<user_regs_struct> = None;
 static mut SETREGS_N: usize = 0;
@@ -77,7 +78,7 @@ fn stub_waitpid<P: Into<Option<Pid>>>(_pid: P, _opts: Option<nix::sys::wait::Wai
 /// effect of a completed group stop on the bookkeeping: every tracee is stopped
 fn stub_group_stop(this: &mut Tracer, _tcx: TraceContext, _initiator: Pid) -> Result<(), Error> {
     unsafe { GROUP_STOPS += 1 };
-    for p in [P7, P8] {
+    for p in [P7, P8, P9] {
         if let Some(t) = this.tracee_ctl.tracee_mut(Pid::from_raw(p)) {
             if !t.is_stopped() {
                 t.set_stop(StopType::Interrupt);
@@ -258,7 +259,7 @@ macro_rules! tracer_harness {
 //@ bounds: 2 stopped threads (pids 7, 8), one resume; per-loop bounds (default 3: two threads, two queue entries; log scans 7; signal lists 8)
 //@ oracle: every stopped thread is resumed exactly once, without a signal
 //@ stubs: ptrace::cont -> log; waitpid -> script then Exited(7, 0); HashMap -> association list (T7, tracee.rs)
-//@ unwindset: ?bsv_tracer::(count|resumed|injected)=7; ?slice_contains=8
+//@ unwindset: ?bsv_tracer::(count|resumed|injected)=7; ?slice_contains=8; ?Tracer::group_stop_interrupt=4
 //@ timeout: 900
 tracer_harness!(c10_queue_empty, 3, queue_short(None));
 
@@ -271,7 +272,7 @@ tracer_harness!(c10_queue_empty, 3, queue_short(None));
 //@ bounds: 2 stopped threads, one resume; per-loop bounds (default 3: two threads, two queue entries; log scans 7; signal lists 8)
 //@ oracle: conservation: the queued signal is passed to exactly one PTRACE_CONT of exactly its thread; the other thread is resumed without a signal; queue empty afterwards
 //@ stubs: as c10_queue_empty
-//@ unwindset: ?bsv_tracer::(count|resumed|injected)=7; ?slice_contains=8
+//@ unwindset: ?bsv_tracer::(count|resumed|injected)=7; ?slice_contains=8; ?Tracer::group_stop_interrupt=4
 //@ timeout: 900
 tracer_harness!(c10_queue_7, 3, queue_short(Some(P7)));
 
@@ -284,7 +285,7 @@ tracer_harness!(c10_queue_7, 3, queue_short(Some(P7)));
 //@ bounds: as c10_queue_7
 //@ oracle: as c10_queue_7
 //@ stubs: as c10_queue_empty
-//@ unwindset: ?bsv_tracer::(count|resumed|injected)=7; ?slice_contains=8
+//@ unwindset: ?bsv_tracer::(count|resumed|injected)=7; ?slice_contains=8; ?Tracer::group_stop_interrupt=4
 //@ timeout: 900
 tracer_harness!(c10_queue_8, 3, queue_short(Some(P8)));
 
@@ -297,7 +298,7 @@ tracer_harness!(c10_queue_8, 3, queue_short(Some(P8)));
 //@ bounds: 2 threads, one resume from a two-entry queue (the following resume starts from the post-state asserted here, which is the pre-state of c10_queue_7 / c10_queue_8); per-loop bounds (default 3: two threads, two queue entries; log scans 7; signal lists 8)
 //@ oracle: the first signal is delivered once to its thread, the thread with the still-queued signal is not resumed, SignalStop for the second is reported, a group stop is requested, and exactly the second entry stays queued with every thread stopped (so the next resume, decided by c10_queue_7/8, delivers it exactly once)
 //@ stubs: as c10_queue_empty; cut: Tracer::group_stop_interrupt -> "every tracee is stopped afterwards"
-//@ unwindset: ?bsv_tracer::(count|resumed|injected)=7; ?slice_contains=8
+//@ unwindset: ?bsv_tracer::(count|resumed|injected)=7; ?slice_contains=8; ?Tracer::group_stop_interrupt=4
 //@ timeout: 1500
 tracer_harness!(c10_queue_78, 3, queue_two(P7, P8));
 
@@ -310,7 +311,7 @@ tracer_harness!(c10_queue_78, 3, queue_two(P7, P8));
 //@ bounds: as c10_queue_78
 //@ oracle: as c10_queue_78
 //@ stubs: as c10_queue_78
-//@ unwindset: ?bsv_tracer::(count|resumed|injected)=7; ?slice_contains=8
+//@ unwindset: ?bsv_tracer::(count|resumed|injected)=7; ?slice_contains=8; ?Tracer::group_stop_interrupt=4
 //@ timeout: 1500
 tracer_harness!(c10_queue_87, 3, queue_two(P8, P7));
 
@@ -323,7 +324,7 @@ tracer_harness!(c10_queue_87, 3, queue_two(P8, P7));
 //@ bounds: as c10_queue_78
 //@ oracle: as c10_queue_78, for one thread: the first signal is delivered by the first resume, the second by the second, never both at once and never the second before the first
 //@ stubs: as c10_queue_78
-//@ unwindset: ?bsv_tracer::(count|resumed|injected)=7; ?slice_contains=8
+//@ unwindset: ?bsv_tracer::(count|resumed|injected)=7; ?slice_contains=8; ?Tracer::group_stop_interrupt=4
 //@ timeout: 1500
 tracer_harness!(c10_queue_88, 3, queue_two(P8, P8));
 
@@ -336,9 +337,47 @@ tracer_harness!(c10_queue_88, 3, queue_two(P8, P8));
 //@ bounds: as c10_queue_78
 //@ oracle: as c10_queue_88
 //@ stubs: as c10_queue_78
-//@ unwindset: ?bsv_tracer::(count|resumed|injected)=7; ?slice_contains=8
+//@ unwindset: ?bsv_tracer::(count|resumed|injected)=7; ?slice_contains=8; ?Tracer::group_stop_interrupt=4
 //@ timeout: 1500
 tracer_harness!(c10_queue_77, 3, queue_two(P7, P7));
+
+/// three threads, each in a signal-stop with its own queued signal (a burst hitting a multi-threaded program)
+fn queue_three() {
+    reset();
+    let wps = WatchpointRegistry::default();
+    let bps: [&Breakpoint; 0] = [];
+    let tcx = TraceContext::new(&bps, &wps);
+    let mut tracer = Tracer::new_external(Pid::from_raw(P7), &[Pid::from_raw(P7), Pid::from_raw(P8), Pid::from_raw(P9)]);
+    let s: [Signal; 3] = [any_signal(), any_signal(), any_signal()];
+    tracer.inject_signal_queue.push_back((Pid::from_raw(P8), s[0]));
+    tracer.inject_signal_queue.push_back((Pid::from_raw(P9), s[1]));
+    tracer.inject_signal_queue.push_back((Pid::from_raw(P7), s[2]));
+    let r = tracer.resume(tcx);
+    bsv!(matches!(r, Ok(StopReason::SignalStop(p, g)) if p.as_raw() == P9 && g == s[1]), "the next pending signal is reported");
+    bsv!(count(P8, s[0] as i32) == 1 && resumed(P8) == 1, "the first queued signal is delivered to its thread exactly once");
+    bsv!(resumed(P9) == 0 && resumed(P7) == 0, "every thread with a signal still queued stays in its signal-stop (resuming it without the signal would drop it)");
+    bsv!(tracer.inject_signal_queue.len() == 2, "two entries left");
+    bsv!(matches!(tracer.inject_signal_queue.front(), Some((p, g)) if p.as_raw() == P9 && *g == s[1]), "queue order kept");
+    bsv!(matches!(tracer.inject_signal_queue.back(), Some((p, g)) if p.as_raw() == P7 && *g == s[2]), "last entry kept");
+    kani::cover!(s[0] != s[1] && s[1] != s[2], "three different signals");
+    kani::cover!(true, "BSV-END");
+    std::mem::forget(r);
+    std::mem::forget(tracer);
+    std::mem::forget(wps);
+}
+
+//@ harness: c10_queue_897
+//@ property: C10
+//@ obligation: H-C10-a
+//@ tier: quick
+//@ encodes: Tracer::resume, TraceeCtl::cont_stopped_ex, Tracee::continue
+//@ symbolic: three queued signals; queue pattern (8, 9, 7) over three threads
+//@ bounds: 3 threads, 3 queued entries, one resume; per-loop bounds (default 4)
+//@ oracle: only the thread of the popped entry is resumed, with its signal, exactly once; every thread whose signal is still queued is left in its signal-stop; the remaining entries keep their order
+//@ stubs: as c10_queue_78
+//@ unwindset: ?bsv_tracer::(count|resumed|injected)=7; ?slice_contains=8; ?Tracer::group_stop_interrupt=4
+//@ timeout: 1800
+tracer_harness!(c10_queue_897, 4, queue_three());
 
 fn is_quiet(s: Signal) -> bool {
     // the property's list
@@ -386,7 +425,7 @@ fn classification() {
 //@ bounds: one wait status, 2 threads; per-loop bounds (default 3: two threads, two queue entries; log scans 7; signal lists 8)
 //@ oracle: the property's lists: SIGALRM, SIGURG, SIGCHLD, SIGIO, SIGVTALRM, SIGPROF are queued and do not group-stop; SIGINT stops and is not queued; everything else is queued once for the receiving thread and group-stops; always reported as SignalStop(pid, signal)
 //@ stubs: ptrace::getsiginfo -> zeroed siginfo; cut: group_stop_interrupt -> counter
-//@ unwindset: ?bsv_tracer::(count|resumed|injected)=7; ?slice_contains=8
+//@ unwindset: ?bsv_tracer::(count|resumed|injected)=7; ?slice_contains=8; ?Tracer::group_stop_interrupt=4
 //@ timeout: 900
 tracer_harness!(c10_classification, 3, classification());
 
@@ -433,7 +472,7 @@ fn passthrough() {
 //@ bounds: 2 threads, one signal arriving during one resume; per-loop bounds (default 3: two threads, two queue entries; log scans 7; signal lists 8)
 //@ oracle: quiet signals: resume does not return, the signal is passed to its thread exactly once and the program runs on; others: SignalStop is returned, nothing is delivered before the user resumes, and the signal stays queued once for its thread with every thread stopped (pre-state of c10_queue_8, which delivers it exactly once); SIGINT is never queued
 //@ stubs: waitpid -> script [Stopped(8, sig)] then Exited(7, 0); ptrace::cont -> log; cut: group_stop_interrupt
-//@ unwindset: ?bsv_tracer::(count|resumed|injected)=7; ?slice_contains=8
+//@ unwindset: ?bsv_tracer::(count|resumed|injected)=7; ?slice_contains=8; ?Tracer::group_stop_interrupt=4
 //@ timeout: 1500
 tracer_harness!(c10_signal_passthrough, 3, passthrough());
 
@@ -495,6 +534,6 @@ fn trap_classify() {
 //@ assumes: ptrace contract: a breakpoint trap comes only from a byte this debugger patched (some active breakpoint has addr = rip-1)
 //@ stubs: ptrace::getregs/setregs -> static register file; getsiginfo -> scripted si_code; cut: group_stop_interrupt
 //@ outside: that the CPU traps exactly on patched bytes; temporary breakpoints of other threads (absorbed path); the continue loop's dispatch on breakpoint type
-//@ unwindset: ?bsv_tracer::(count|resumed|injected)=7; ?slice_contains=8
+//@ unwindset: ?bsv_tracer::(count|resumed|injected)=7; ?slice_contains=8; ?Tracer::group_stop_interrupt=4
 //@ timeout: 1500
 tracer_harness!(c01_trap_classify, 3, trap_classify());
